@@ -13,7 +13,8 @@ from checks import blobs, common, drive
 from simworld import blobstore, prng
 
 
-FORGE_VARIANTS = ("y=1", "y=0", "y=p-1/z=1", "y=p-1/z=p-1", "p=1", "p=2,y=1", "p=5,y=4/z=1", "p=5,y=4/z=4", "p=7,y=2/z=1", "p=7,y=2/z=2", "p=7,y=2/z=4", "g-differs,y=1")
+FORGE_VARIANTS = ("y=1", "y=0", "y=p-1/z=1", "y=p-1/z=p-1", "p=1", "p=2,y=1", "p=5,y=4/z=1", "p=5,y=4/z=4", "p=7,y=2/z=1", "p=7,y=2/z=2", "p=7,y=2/z=4", "g-differs,y=1",
+                  "p=2^2047,y=2/z=0", "p=2^2040,y=4/z=0")
 
 
 def run_forge(case) -> dict:
@@ -33,7 +34,9 @@ def run_forge(case) -> dict:
     v = FORGE_VARIANTS[variant]
     zs = {"y=1": (P, G, 1, 1), "y=0": (P, G, 0, 0), "y=p-1/z=1": (P, G, P - 1, 1), "y=p-1/z=p-1": (P, G, P - 1, P - 1), "p=1": (1, 0, 0, 0),
           "p=2,y=1": (2, 1, 1, 1), "p=5,y=4/z=1": (5, 2, 4, 1), "p=5,y=4/z=4": (5, 2, 4, 4), "p=7,y=2/z=1": (7, 3, 2, 1), "p=7,y=2/z=2": (7, 3, 2, 2),
-          "p=7,y=2/z=4": (7, 3, 2, 4), "g-differs,y=1": (P, G + 1, 1, 1)}[v]
+          "p=7,y=2/z=4": (7, 3, 2, 4), "g-differs,y=1": (P, G + 1, 1, 1),
+          # a modulus that is a power of two: any large exponent of an even base gives 0
+          "p=2^2047,y=2/z=0": (1 << 2047, 3, 2, 0), "p=2^2040,y=4/z=0": (1 << 2040, 3, 4, 0)}[v]
     fp, fg, fy, fz = zs
     key_info = gkdi.pack_dh_key(kl, fp, fg, fy)
     kek = gkdi._kek_from_shared(b.rk.hash_name, fz.to_bytes(kl, "big"), "SHA256")
@@ -296,7 +299,7 @@ class C04(common.Check):
             "located with ref.cms' offset map; algorithm substitution (content-encryption OID rewritten to every AES mode of the NIST arc x "
             "parameter shapes x content cut to blocks, all 256 last IV bytes for the CBC OIDs); flips/truncations of blobs with > 1 MiB content; pairs of overlapping async unprotects (valid blob A, modified blob B' carrying A's key "
             "identifier / nonce / wrapped CEK / content) on one simulated loop, online and offline; the same pairs from caller threads of one process (deterministic thread scheduler) and as histories on one shared "
-            "cache (B' rejected, A, B' again, A, B'); records rewritten at rest into public-key records whose DH public value (0, 1, p-1, or a group of the writer's choosing) makes the shared secret predictable; records rewritten by a keyless party (other key position, own CEK wrapped under the KEK that follows if the L2 / L1 / L0 / root key at some level of the chain were empty or zeros, own content) presented to a cache holding the root key, fresh or after honest use of the same cache; records whose GCM parameters announce a 0..15-octet tag with a content carrying a tag of that length; pairs of blobs protected by the library in one process with fields of one grafted onto the other (in a third of them after B, or A and B, were opened on the same cache); every flip / truncation of blobs whose plaintext is itself a blob (a secret protected twice). Non-trivial = stored bytes differ from the base blob; distinct = distinct (blob, faults).")
+            "cache (B' rejected, A, B' again, A, B'); records rewritten at rest into public-key records whose DH public value (0, 1, p-1, or a group of the writer's choosing, also under elliptic-curve root keys) makes the shared secret predictable; records rewritten by a keyless party (other key position, own CEK wrapped under the KEK that follows if the L2 / L1 / L0 / root key at some level of the chain were empty or zeros, own content) presented to a cache holding the root key, fresh or after honest use of the same cache; records whose GCM parameters announce a 0..15-octet tag with a content carrying a tag of that length; pairs of blobs protected by the library in one process with fields of one grafted onto the other (in a third of them after B, or A and B, were opened on the same cache); every flip / truncation of blobs whose plaintext is itself a blob (a secret protected twice). Non-trivial = stored bytes differ from the base blob; distinct = distinct (blob, faults).")
     components = {"client": "real (ncrypt_unprotect_secret, DPAPINGBlob.unpack, KeyCache, key derivation, AES-KW/GCM via cryptography)",
                   "blob store": "simulated (fault injection at rest)", "network": "simulated, no DC reachable (attempts observed at the seam)",
                   "base blobs": "reference encoder (ref.cms) and the library's own protect"}
@@ -386,8 +389,9 @@ class C04(common.Check):
         for i in range(300 if tier == "quick" else 12000):
             out.append(["hist", i, ("online", "offline")[i % 2], ("key_info", "key_identifier", "enc_cek", "content", "flip", "tagflip")[i % 6]])
         # records rewritten into public-key mode with a DH public value that makes the shared secret predictable (DH root keys)
+        # (also for ECDH root keys: the record then claims a finite-field key although the group key is an elliptic-curve one)
         for bi, b in enumerate(cat):
-            if b.rk.secret_alg == "DH" and (tier == "thorough" or bi % 3 == 0):
+            if (b.rk.secret_alg == "DH" and (tier == "thorough" or bi % 3 == 0)) or (b.rk.secret_alg != "DH" and (tier == "thorough" or bi % 4 == 1)):
                 for v in range(len(FORGE_VARIANTS)):
                     out.append(["forge", bi, v])
         # records rewritten by a keyless party under a KEK that follows from a public constant somewhere in the chain
